@@ -30,7 +30,8 @@ theorem C10_source_shape :
     (∀ r ∈ Extracted.streamerRenewals, r = "renews") ∧ Extracted.streamerRenewals.length = 2 ∧
     "pubAwaiter:continue" ∈ Extracted.pullSelectCases := by
   refine ⟨?_, by decide, by decide⟩
-  intro r hr; simp [Extracted.streamerRenewals] at hr; exact hr
+  have h : Extracted.streamerRenewals.all (· == "renews") = true := by decide
+  intro r hr; simpa using List.all_eq_true.mp h r hr
 
 /-- **C10 (no lost wake-up, every schedule)**: in every state reachable by any interleaving of any
     waiters and writers — each writer waking at least the subscriptions on which it makes something
